@@ -9,9 +9,12 @@ from .sym import Sym, reset
 def job(arg):
     modname, cfg = arg
     build = importlib.import_module(modname).build
+    Sym.ALIAS = dict(cfg.get('alias') or {})
     reset()
     t0 = time.time()
     from .cysym import KernelOOB
+    if Sym.ALIAS:
+        return locus_job(build, cfg, t0)
     try:
         obs, assumptions, info = build(cfg)
     except KernelOOB as e:
@@ -32,8 +35,10 @@ def job(arg):
         import traceback
         return {'group': cfg['group'], 'n': 0, 'unsat': 0, 'sat': [], 'unknown': [], 'solver_s': 0, 'queries': 0, 'samples': [],
                 'extra': {}, 'error': '%s: %s\n%s' % (type(e).__name__, e, traceback.format_exc()[-800:]), 'cfg': cfg}
+    events = [list(e) for e in Sym.EQ_EVENTS]
     res = decide_job(cfg['group'], obs, assumptions, timeout_ms=cfg.get('timeout_ms', 60000), extra=info)
     res['cfg'] = cfg
+    res['eq_events'] = events
     res['build_s'] = time.time() - t0 - res['solver_s']
     if cfg.get('canary'):
         # perturbed oracle twin: must be sat
@@ -41,6 +46,91 @@ def job(arg):
         c = decide_job('canary', [(name, lhs, Sym.lift(rhs) * Fraction(3, 2) + Sym.var('canary_eps'))], assumptions)
         res['canary_sat'] = len(c['sat']) == 1
     return res
+
+
+def locus_job(build, cfg, t0):
+    """the same configuration on an equality locus (cfg['alias']: one symbol identified with another symbol or pinned to a number).
+    A locus that contradicts the configuration's own assumptions, or on which the run cannot be carried out (e.g. a division by the
+    pinned value), is reported as not explored -- never as a violation or a harness error"""
+    import z3
+    empty = {'group': cfg['group'], 'n': 0, 'unsat': 0, 'sat': [], 'unknown': [], 'solver_s': 0, 'queries': 0, 'samples': [], 'extra': {}, 'cfg': cfg}
+    try:
+        obs, assumptions, info = build(cfg)
+    except BaseException as e:
+        if isinstance(e, (KeyboardInterrupt, SystemExit)):
+            raise
+        Sym.ALIAS = {}
+        return dict(empty, locus_skipped='%s: %s' % (type(e).__name__, str(e)[:160]))
+    finally:
+        alias = dict(Sym.ALIAS)
+        Sym.ALIAS = {}
+    subs = []
+    for vn, to in alias.items():
+        try:
+            subs.append((z3.Real(vn), z3.RealVal(str(Fraction(to)))))
+        except (ValueError, ZeroDivisionError):
+            subs.append((z3.Real(vn), z3.Real(to)))
+    alist = assumptions if isinstance(assumptions, (list, tuple)) else []
+    for a in alist:
+        try:
+            if z3.is_false(z3.simplify(z3.substitute(a, *subs))):
+                return dict(empty, locus_skipped='contradicts the assumption %s' % a)
+        except Exception:
+            pass
+    res = decide_job(cfg['group'], obs, assumptions, timeout_ms=cfg.get('timeout_ms', 60000), extra=info)
+    res['cfg'] = cfg
+    res['build_s'] = time.time() - t0 - res['solver_s']
+    return res
+
+
+def explore_loci(modname, results, run=None, admissible=None, max_new=24):
+    """second pass over the equality loci: wherever the executed package code compared a symbolic input with another symbolic input
+    or with a number (== / !=), the first pass took the generic branch (not equal).  Every such locus is explored with the equality
+    imposed (same symbol / that number), one follow-up per (locus, group); comparisons between compound expressions cannot be
+    imposed by renaming and are listed as not explored"""
+    from .harness import pmap
+    by_locus, unexplored, inadmissible = {}, [], set()
+    for r in results:
+        if r.get('error') or r.get('sat') or r.get('oob') or r.get('memview') or 'cfg' not in r or r['cfg'].get('alias'):
+            continue
+        cfg0 = r['cfg']
+        for a, b, where in r.get('eq_events', []):
+            a, b = (tuple(a) if a else None), (tuple(b) if b else None)
+            if a and b and a[0] == 'var' and b[0] in ('var', 'num'):
+                vn, to = a[1], b[1]
+            elif a and b and b[0] == 'var' and a[0] == 'num':
+                vn, to = b[1], a[1]
+            else:
+                if len(unexplored) < 20 and not any(u['where'] == where for u in unexplored):
+                    unexplored.append({'where': where, 'comparison': [a, b], 'configuration': cfg0['group']})
+                continue
+            if '#' in vn or '!' in vn or '#' in to or '!' in to:
+                continue            # harness atoms (integral tables, trig classes), not inputs
+            if admissible is not None and not admissible(vn, to, cfg0):
+                inadmissible.add('%s %s  @ %s' % (vn, to, where))
+                continue
+            by_locus.setdefault((vn, to, where), [])
+            if not any(c['group'] == cfg0['group'] for c in by_locus[(vn, to, where)]):
+                by_locus[(vn, to, where)].append(cfg0)
+    follow = []
+    depth = 0
+    while len(follow) < max_new and any(len(v) > depth for v in by_locus.values()):
+        for (vn, to, where), cfgs in sorted(by_locus.items()):
+            if len(cfgs) > depth and len(follow) < max_new:
+                c2 = dict(cfgs[depth], alias={vn: to}, group='%s:on-the-locus-%s=%s' % (cfgs[depth]['group'], vn, to))
+                c2.pop('canary', None)
+                follow.append(c2)
+        depth += 1
+    res2 = pmap(job, [(modname, c) for c in follow]) if follow else []
+    skipped = [{'locus': r['cfg']['alias'], 'configuration': r['cfg']['group'], 'why': r['locus_skipped']} for r in res2 if r.get('locus_skipped')]
+    res2 = [r for r in res2 if not r.get('locus_skipped')]
+    if run is not None:
+        run.extra['equality_loci'] = {
+            'what': 'every ==/!= the executed package code applied to symbolic inputs; the first pass decides them as "not equal", the second pass re-runs the configuration with the equality imposed',
+            'comparisons': sorted({'%s %s  @ %s' % (k[0], k[1], k[2]) for k in by_locus}),
+            'explored': [r['cfg']['group'] for r in res2][:60], 'not_admissible_for_this_check': sorted(inadmissible)[:20],
+            'not_explorable': skipped[:20], 'comparisons_between_compound_expressions': unexplored}
+    return results + res2
 
 
 def concrete_replay(build, cfg, model_values):
@@ -61,8 +151,12 @@ def concrete_replay(build, cfg, model_values):
     for g in ('a', 'b', 'r', 'h', 'mu'):
         if g in vals and vals[g] <= 0:
             vals[g] = abs(vals[g]) + Fraction(1, 3)
+    Sym.ALIAS = dict(cfg.get('alias') or {})
     reset()
-    obs, _, info = build(cfg, values=vals)
+    try:
+        obs, _, info = build(cfg, values=vals)
+    finally:
+        Sym.ALIAS = {}
     bad = []
     for name, lhs, rhs in obs:
         l, r = Sym.lift(lhs), Sym.lift(rhs)
